@@ -61,6 +61,7 @@ import re as _re
 _r5 = [d for d in sorted(glob.glob(f'{V}/seeded/*/')) if _re.search(r'-e\d/$', d)]
 _r5n = len(_r5)
 _r5m = sum(1 for d in _r5 if json.load(open(d + 'meta.json')).get('caught_after'))
+_r5s = sum(1 for d in _r5 if json.load(open(d + 'meta.json')).get('also_property'))
 summary13 = (f"Totals at the final commit (every change re-confirmed serially by the documented route — `git -C /repo apply`, run the "
              f"quick check, `git -C /repo checkout -- .` — at /repo HEAD): {_tot['n']} seeded changes in five rounds (4 + 3 + 3 + 2 per "
              f"property, then 2 more for twelve of them — 23 delivered; three were dropped when a later repo fix neutralised them), {_tot['input']} caught with a concrete failing "
@@ -69,7 +70,7 @@ summary13 = (f"Totals at the final commit (every change re-confirmed serially by
              f"C07's; a reset-walk change under C05 is caught by C04). {_tot['after']} were MISSED on first contact and are caught "
              f"only after the generator/oracles were widened in the direction they pointed to (first-contact miss rate: round 1 "
              f"about one third, round 2 about one sixth, round 3 — the harder kinds — about one third, round 4 — other "
-             f"mechanism families — 13 of 40, round 5 — {_r5m} of {_r5n}).\n\n")
+             f"mechanism families — 13 of 40, round 5 — {_r5m - _r5s} of {_r5n} needed widening and {_r5s} more are caught only by a sibling property's check).\n\n")
 head13 = summary13 + ('Produced by fresh sub-agents that saw only the property text and a scratch worktree of /repo (nothing from /verif); each '
           'keeps the 2 988 tests green and comes with a demo that fails only with the change. "caught (input)" = the check exits 1 '
           'with a VIOLATION line whose replay holds a concrete failing input. The last column says what had to be strengthened '
